@@ -79,6 +79,14 @@ namespace Pistache::Tcp
 
     void Transport::handleNewPeer(const std::shared_ptr<Tcp::Peer>& peer)
     {
+        // The write queue of the connection is set up before the worker can know the peer: a
+        // peer that is already gone when the worker first looks at it is removed - write queue
+        // included - before this thread gets any further.
+        int fd = peer->fd();
+        {
+            Guard guard(toWriteLock);
+            toWrite.emplace(fd, std::deque<WriteEntry> {});
+        }
         auto ctx                   = context();
         const bool isInRightThread = std::this_thread::get_id() == ctx.thread();
         if (!isInRightThread)
@@ -89,11 +97,6 @@ namespace Pistache::Tcp
         else
         {
             handlePeer(peer);
-        }
-        int fd = peer->fd();
-        {
-            Guard guard(toWriteLock);
-            toWrite.emplace(fd, std::deque<WriteEntry> {});
         }
     }
 
